@@ -1,8 +1,6 @@
-use proc_macro2::{Ident, Span, TokenStream};
-use quote::{ToTokens, TokenStreamExt};
-use syn::{
-    punctuated::Punctuated, spanned::Spanned, Data, DeriveInput, Expr, Lit, Meta, Token, UnOp,
-};
+use proc_macro2::{Ident, Literal, Span, TokenStream};
+use quote::{quote, ToTokens, TokenStreamExt};
+use syn::{spanned::Spanned, Data, DataEnum, DeriveInput, Expr, Meta};
 
 #[derive(Debug)]
 pub(crate) enum DiscriminantType {
@@ -67,103 +65,73 @@ impl ToTokens for DiscriminantType {
 }
 
 impl DiscriminantType {
+    /// The integer type of the discriminants: the primitive representation chosen by `#[repr(...)]`,
+    /// otherwise `isize`. Other hints of the `repr` attribute (`C`, `align(N)`, ...) are skipped.
     pub(crate) fn from_ast(ast: &DeriveInput) -> syn::Result<Self> {
-        if let Data::Enum(data) = &ast.data {
+        if let Data::Enum(_) = &ast.data {
+            let mut discriminant_type = None;
+
             for attr in ast.attrs.iter() {
                 if attr.path().is_ident("repr") {
-                    // #[repr(u8)], #[repr(u16)], ..., etc.
-                    if let Meta::List(list) = &attr.meta {
-                        let result =
-                            list.parse_args_with(Punctuated::<Ident, Token![,]>::parse_terminated)?;
-
-                        if let Some(value) = result.into_iter().next() {
-                            if let Some(t) = Self::parse_str(value.to_string()) {
-                                return Ok(t);
-                            }
-                        }
-                    }
-                }
-            }
-
-            let mut min = i128::MAX;
-            let mut max = i128::MIN;
-            let mut counter = 0i128;
-
-            for variant in data.variants.iter() {
-                if let Some((_, exp)) = variant.discriminant.as_ref() {
-                    match exp {
-                        Expr::Lit(lit) => {
-                            if let Lit::Int(lit) = &lit.lit {
-                                counter = lit
-                                    .base10_parse()
-                                    .map_err(|error| syn::Error::new(lit.span(), error))?;
-                            } else {
-                                return Err(syn::Error::new(lit.span(), "not an integer"));
-                            }
-                        },
-                        Expr::Unary(unary) => {
-                            if let UnOp::Neg(_) = unary.op {
-                                if let Expr::Lit(lit) = unary.expr.as_ref() {
-                                    if let Lit::Int(lit) = &lit.lit {
-                                        match lit.base10_parse::<i128>() {
-                                            Ok(i) => {
-                                                counter = -i;
-                                            },
-                                            Err(error) => {
-                                                // overflow
-                                                if lit.base10_digits()
-                                                    == "170141183460469231731687303715884105728"
-                                                {
-                                                    counter = i128::MIN;
-                                                } else {
-                                                    return Err(syn::Error::new(lit.span(), error));
-                                                }
-                                            },
-                                        }
-                                    } else {
-                                        return Err(syn::Error::new(lit.span(), "not an integer"));
+                    // #[repr(u8)], #[repr(C, u16)], #[repr(u8, align(4))], ..., etc.
+                    if let Meta::List(_) = &attr.meta {
+                        attr.parse_nested_meta(|meta| {
+                            if let Some(ident) = meta.path.get_ident() {
+                                if let Some(t) = Self::parse_str(ident.to_string()) {
+                                    if discriminant_type.is_none() {
+                                        discriminant_type = Some(t);
                                     }
-                                } else {
-                                    return Err(syn::Error::new(
-                                        unary.expr.span(),
-                                        "not a literal",
-                                    ));
                                 }
-                            } else {
-                                return Err(syn::Error::new(
-                                    unary.op.span(),
-                                    "this operation is not allow here",
-                                ));
                             }
-                        },
-                        _ => return Err(syn::Error::new(exp.span(), "not a literal")),
+
+                            if meta.input.peek(syn::token::Paren) {
+                                let content;
+
+                                syn::parenthesized!(content in meta.input);
+
+                                content.parse::<TokenStream>()?;
+                            }
+
+                            Ok(())
+                        })?;
                     }
                 }
-
-                if min > counter {
-                    min = counter;
-                }
-
-                if max < counter {
-                    max = counter;
-                }
-
-                counter = counter.saturating_add(1);
             }
 
-            Ok(if min >= i8::MIN as i128 && max <= i8::MAX as i128 {
-                Self::I8
-            } else if min >= i16::MIN as i128 && max <= i16::MAX as i128 {
-                Self::I16
-            } else if min >= i32::MIN as i128 && max <= i32::MAX as i128 {
-                Self::I32
-            } else if min >= i64::MIN as i128 && max <= i64::MAX as i128 {
-                Self::I64
-            } else {
-                Self::I128
-            })
+            Ok(discriminant_type.unwrap_or(Self::ISize))
         } else {
             Err(syn::Error::new(ast.span(), "not an enum"))
         }
+    }
+
+    /// Creates the arms of a `match` expression which maps each variant to its discriminant value: the
+    /// written expression, or the last written expression plus the distance from it, or the position.
+    pub(crate) fn discriminant_arms(data: &DataEnum) -> TokenStream {
+        let mut arms_token_stream = TokenStream::new();
+
+        let mut base: Option<&Expr> = None;
+        let mut offset = 0usize;
+
+        for variant in data.variants.iter() {
+            if let Some((_, exp)) = variant.discriminant.as_ref() {
+                base = Some(exp);
+                offset = 0;
+            }
+
+            let variant_ident = &variant.ident;
+            let offset_literal = Literal::usize_unsuffixed(offset);
+
+            let value = match base {
+                Some(exp) if offset == 0 => quote!(#exp),
+                Some(exp) => quote!((#exp) + #offset_literal),
+                None => quote!(#offset_literal),
+            };
+
+            arms_token_stream.extend(quote!(Self::#variant_ident { .. } => #value,));
+
+            offset += 1;
+        }
+
+        arms_token_stream
     }
 }
